@@ -502,6 +502,7 @@ def run(repo: Repo, ctx) -> None:
     _r8(repo, ctx, pm)
     _r9(repo, ctx, pm)
     _r10(repo, ctx, pm)
+    _r11(repo, ctx, pm)
 
 
 def _r7(repo: Repo, ctx, pm) -> None:
@@ -780,3 +781,69 @@ def _r10(repo: Repo, ctx, pm) -> None:
            f'every connection sits idle in other blocks, are never given one',
            f'{tick.module.rel()}:{gate.lineno}',
            sample='if self._new_blocks_waitlist')
+
+
+
+def _r11(repo: Repo, ctx, pm) -> None:
+    """C16.R11 a block somebody is waiting on is neither dropped nor put to
+    sleep.  `_drop_block` removes the block from the pool's table (its
+    queued waiters are then never looked at again; with assertions on, the
+    tick dies instead -- before it serves anybody); a suppressed block is
+    skipped by every hand-over decision.  Path facts, under the assumption
+    that the block has a waiter:
+      (a) the tick never schedules it for dropping;
+      (b) `prune_inactive_connections` does not mark it suppressed."""
+    from ..absint import Facts, open_nodes
+    ctx.floor('C16.R11', 2)
+    tick = pm.repo.find_method(pm.pool.qualname, '_tick')
+    prune = pm.repo.find_method(pm.pool.qualname,
+                                'prune_inactive_connections')
+    if tick is None or prune is None:
+        raise AnalysisError('C16.R11: _tick / prune_inactive_connections '
+                            'not found')
+    ctx.saw(tick)
+    ctx.saw(prune)
+    g = CFG(tick.node)
+    drops = [n.id for n in g.nodes if n.kind == 'stmt' and n.ast is not None
+             and any(isinstance(c, ast.Call) and norm(c.func) in (
+                 'self._to_drop.append', 'self._drop_block')
+                 and c.args and norm(c.args[0]) == 'block'
+                 for c in ast.walk(n.ast))]
+    if not drops:
+        raise AnalysisError('C16.R11: the tick no longer schedules blocks '
+                            'for dropping through _to_drop / _drop_block')
+    fx = Facts({'block.count_waiters()': True}, fn_node=tick.node)
+    on = open_nodes(g, fx)
+    # the loop that drains _to_drop re-uses the name `block`: only the
+    # scheduling sites inside the per-block scan are looked at
+    sched = [d for d in drops if any(
+        isinstance(c, ast.Call) and norm(c.func) == 'self._to_drop.append'
+        for c in ast.walk(g.nodes[d].ast))] or drops
+    ok = not (set(sched) & on)
+    ctx.ob('C16.R11', '_tick:never-drops-a-block-with-waiters', ok,
+           'the tick can schedule a block for dropping while a request is '
+           'queued on it (a suppressed block with a waiter takes the '
+           '"nothing wants it" branch): _drop_block then fails its '
+           'assertion and the tick aborts before it serves the waitlist or '
+           'rebalances -- for every database, on every tick -- or, with '
+           'assertions off, removes the block with its waiter still queued',
+           tick.loc, sample='under count_waiters(): no _to_drop.append')
+    g2 = CFG(prune.node)
+    sup = [n.id for n in g2.nodes if n.kind == 'stmt' and isinstance(
+        n.ast, ast.Assign) and any(isinstance(t, ast.Attribute)
+                                   and t.attr == 'suppressed'
+                                   for t in n.ast.targets)
+        and norm(n.ast.value) == 'True']
+    if not sup:
+        raise AnalysisError('C16.R11: prune_inactive_connections no longer '
+                            'sets `suppressed`')
+    fx2 = Facts({'block.count_waiters()': True}, fn_node=prune.node)
+    on2 = open_nodes(g2, fx2)
+    ok = not (set(sup) & on2)
+    ctx.ob('C16.R11', 'prune_inactive_connections:never-suppresses-a-'
+           'block-with-waiters', ok,
+           'prune_inactive_connections marks a block suppressed although a '
+           'request is queued on it: the queued request arrived before the '
+           'mark, so nothing un-suppresses the block, and every hand-over '
+           'decision (and the tick) treats the database as inactive',
+           prune.loc, sample='under count_waiters(): no suppressed = True')
